@@ -144,7 +144,7 @@ def instances(tier):
     add(spec('curve', (3,), ((),), rational=False, lo=2, hi=5), [2])
     surf = [((1, 2), ((1,), ())), ((2, 1), ((), (1,))), ((2, 2), ((1,), (2,)))]
     if not quick:
-        surf += [((3, 2), ((1,), (1,))), ((2, 3), ((), (1, 1)))]
+        surf += [((3, 2), ((1,), (1,))), ((2, 3), ((), (1, 1))), ((3, 3), ((), (1,))), ((1, 3), ((1, 1), (2,)))]
     for degs, ms in surf:
         for rational in (False, True):
             sp = spec('surface', degs, ms, rational=rational)
@@ -153,7 +153,7 @@ def instances(tier):
                     continue
                 add(sp, dens, timeout=1200)
     add(spec('surface', (2, 1), ((), (1,)), rational=True, lo=2, hi=5), (1, 1))
-    vols = [((1, 1, 2), ((1,), (), ())), ((2, 1, 1), ((), (1,), (1, 1)))]
+    vols = [((1, 1, 2), ((1,), (), ())), ((2, 1, 1), ((), (1,), (1, 1)))] + ([] if quick else [((2, 2, 1), ((1,), (), ())), ((1, 3, 2), ((), (1,), ()))])
     for degs, ms in vols:
         for rational in ((False,) if quick else (False, True)):
             sp = spec('volume', degs, ms, rational=rational)
